@@ -77,6 +77,9 @@ type stack struct {
 	// onInstanceDone lets a scenario decide what happens once an instance
 	// transferred everything: return true to close it from this side.
 	afterDone func(in *instance) bool
+	// eager: Accept is called again immediately (as gRPC does) and Dial may
+	// be called while a connection is still open
+	eager bool
 }
 
 func newStack(rc *simrt.RunCtx, rl *relay, pr *prng, authSize int, maxVersion byte) *stack {
@@ -312,9 +315,53 @@ func (st *stack) runInstance(sd *stackSide, in *instance) {
 	sd.mu.Unlock()
 }
 
+// doneCh returns the Done channel of a raw mailbox connection.
+func doneCh(raw net.Conn) <-chan struct{} {
+	switch c := raw.(type) {
+	case *ServerConn:
+		return c.Done()
+	case *ClientConn:
+		return c.Done()
+	}
+	return nil
+}
+
+// oneLive checks C11's first clause when Accept / Dial hands out a connection:
+// the previous one must already be closed.
+func (st *stack) oneLive(sd *stackSide, what string, prev net.Conn) {
+	if prev == nil {
+		return
+	}
+	select {
+	case <-doneCh(prev):
+		st.rc.Probe("c11.handout-after-previous-closed")
+	default:
+		st.rc.Violate("c11.two-live-connections", sd.name, "%s returned a new connection while the previous one is still open", what)
+	}
+}
+
+func (st *stack) serveRaw(sd *stackSide, raw net.Conn) {
+	pattern := sd.data.HandshakePattern().Name
+	conn, _, err := sd.creds.ServerHandshake(raw)
+	if err != nil {
+		sd.mu.Lock()
+		sd.hsFails++
+		sd.mu.Unlock()
+		sd.note("server handshake: %v", err)
+		raw.Close()
+		return
+	}
+	sd.mu.Lock()
+	in := &instance{side: "server", k: len(sd.insts), conn: conn, raw: raw, pattern: pattern, openedAt: st.rc.Now(), lastMove: st.rc.Now()}
+	sd.insts = append(sd.insts, in)
+	sd.mu.Unlock()
+	st.runInstance(sd, in)
+}
+
 func (st *stack) serverLoop() {
 	defer st.wg.Done()
 	sd := st.S
+	var prev net.Conn
 	for !st.stopped() {
 		raw, err := st.srv.Accept()
 		sd.mu.Lock()
@@ -333,21 +380,19 @@ func (st *stack) serverLoop() {
 			continue
 		}
 		st.rc.Probe("stack.accepted")
-		pattern := sd.data.HandshakePattern().Name
-		conn, _, err := sd.creds.ServerHandshake(raw)
-		if err != nil {
-			sd.mu.Lock()
-			sd.hsFails++
-			sd.mu.Unlock()
-			sd.note("server handshake: %v", err)
-			raw.Close()
+		st.oneLive(sd, "Accept", prev)
+		prev = raw
+		if st.eager {
+			// as gRPC: hand the connection to a goroutine and call Accept
+			// again at once
+			st.wg.Add(1)
+			go func() {
+				defer st.wg.Done()
+				st.serveRaw(sd, raw)
+			}()
 			continue
 		}
-		sd.mu.Lock()
-		in := &instance{side: "server", k: len(sd.insts), conn: conn, raw: raw, pattern: pattern, openedAt: st.rc.Now(), lastMove: st.rc.Now()}
-		sd.insts = append(sd.insts, in)
-		sd.mu.Unlock()
-		st.runInstance(sd, in)
+		st.serveRaw(sd, raw)
 	}
 }
 
@@ -362,8 +407,26 @@ func (st *stack) clientLoop() {
 			return true
 		}
 	}
+	type dialRes struct {
+		raw net.Conn
+		err error
+	}
+	var early chan dialRes
+	var prev net.Conn
 	for !st.stopped() {
-		raw, err := st.cli.Dial(st.ctx, "")
+		var raw net.Conn
+		var err error
+		if early != nil {
+			select {
+			case r := <-early:
+				raw, err = r.raw, r.err
+			case <-st.stop:
+				return
+			}
+			early = nil
+		} else {
+			raw, err = st.cli.Dial(st.ctx, "")
+		}
 		sd.mu.Lock()
 		sd.attempts++
 		sd.mu.Unlock()
@@ -375,6 +438,8 @@ func (st *stack) clientLoop() {
 			continue
 		}
 		st.rc.Probe("stack.dialed")
+		st.oneLive(sd, "Dial", prev)
+		prev = raw
 		pattern := sd.data.HandshakePattern().Name
 		conn, _, err := sd.creds.ClientHandshake(st.ctx, "", raw)
 		if err != nil {
@@ -392,6 +457,25 @@ func (st *stack) clientLoop() {
 		in := &instance{side: "client", k: len(sd.insts), conn: conn, raw: raw, pattern: pattern, openedAt: st.rc.Now(), lastMove: st.rc.Now()}
 		sd.insts = append(sd.insts, in)
 		sd.mu.Unlock()
+		if st.eager && st.rc.Pick(2, "wl.earlydial") == 1 {
+			// Dial called while this connection is still open
+			ch := make(chan dialRes, 1)
+			early = ch
+			delay := time.Duration(st.rc.Pick(3000, "wl.earlydial-at")) * time.Millisecond
+			st.wg.Add(1)
+			go func() {
+				defer st.wg.Done()
+				select {
+				case <-time.After(delay):
+				case <-st.stop:
+					ch <- dialRes{nil, errors.New("stopped")}
+					return
+				}
+				st.rc.Probe("c11.early-dial")
+				r, e := st.cli.Dial(st.ctx, "")
+				ch <- dialRes{r, e}
+			}()
+		}
 		st.runInstance(sd, in)
 	}
 }
